@@ -51,3 +51,14 @@ func (r *Receiver) VerifCorrupt() []string {
 	}
 	return out
 }
+
+// VerifLastSeen returns the newest non-ignored snapshot name per instance of the last listing.
+func (r *Receiver) VerifLastSeen() map[string]string {
+	r.mu.Lock()
+	defer r.mu.Unlock()
+	out := make(map[string]string, len(r.lastSeenByInstance))
+	for k, v := range r.lastSeenByInstance {
+		out[k] = v.FullName
+	}
+	return out
+}
